@@ -52,6 +52,8 @@ def gen_history(rng, n, ndirs, length):
     """histories that the model accepts (it refuses a second live cache on one directory)"""
     ops = []
     wrappers = []          # dicts: dir, holders, alive
+    iters = {}             # iterators in flight: id -> [wrapper, position]
+    nit = 0
     dir_exists = [False] * ndirs
     for _ in range(length):
         alive = [w for w, x in enumerate(wrappers) if x['alive']]
@@ -60,7 +62,7 @@ def gen_history(rng, n, ndirs, length):
         if free_dirs:
             choices += ['open'] * 3
         if alive:
-            choices += ['get'] * 6 + ['copy', 'release', 'release']
+            choices += ['get'] * 4 + ['next'] * 4 + ['copy', 'release', 'release']
         k = rng.choice(choices)
         if k == 'open':
             d = rng.choice(free_dirs)
@@ -73,12 +75,25 @@ def gen_history(rng, n, ndirs, length):
             wrappers.append({'dir': d, 'holders': 1, 'alive': True, 'clear': clear})
         elif k == 'get':
             ops.append({'k': 'get', 'w': rng.choice(alive), 'i': rng.randrange(n)})
+        elif k == 'next':
+            live = [i for i, (w, pos) in iters.items() if wrappers[w]['alive'] and pos < n]
+            if live and rng.random() < 0.75:
+                it = rng.choice(live)
+            else:
+                it = nit
+                nit += 1
+                iters[it] = [rng.choice(alive), 0]
+            w, pos = iters[it]
+            ops.append({'k': 'next', 'w': w, 'it': it, 'i': pos})
+            iters[it][1] += 1
         elif k == 'copy':
             w = rng.choice(alive)
             wrappers[w]['holders'] += 1
             ops.append({'k': 'copy', 'w': w})
         elif k == 'release':
             w = rng.choice(alive)
+            for i in [i for i, (ww, _) in iters.items() if ww == w]:
+                del iters[i]
             x = wrappers[w]
             x['holders'] -= 1
             if x['holders'] == 0:
@@ -89,6 +104,7 @@ def gen_history(rng, n, ndirs, length):
         else:
             for x in wrappers:
                 x['alive'] = False
+            iters.clear()
             ops.append({'k': 'kill'})
     return ops
 
@@ -117,7 +133,7 @@ def run_history(n, ndirs, ops, async_kill_rng=None):
                 if isinstance(r, dict) and 'opened' in r:
                     nwrap += 1
                 outs.append(r)
-            elif async_kill_rng is not None and op['k'] == 'get' and idx + 1 < len(ops) and ops[idx + 1]['k'] == 'kill':
+            elif async_kill_rng is not None and op['k'] in ('get', 'next') and idx + 1 < len(ops) and ops[idx + 1]['k'] == 'kill':
                 # the writing process is killed at a random instant DURING this access
                 child.send_nowait(op)
                 time.sleep(async_kill_rng.choice([0.0, 0.0005, 0.002, 0.005, 0.02]))
@@ -143,7 +159,7 @@ def oracle(n, ops, outs, exists_after=None):
         # an open that is refused (non-empty directory, reuse=False) must leave the stored examples alone
         if op['k'] == 'open' and o == 'refused' and exists_after is not None and not exists_after[t][op['dir']]:
             fails.append(('refused_open_removed_the_directory', {'t': t, 'op': op}))
-        if op['k'] == 'get' and isinstance(o, dict):
+        if op['k'] in ('get', 'next') and isinstance(o, dict):
             if 'val' in o and o['val'] != (None if op['i'] % 3 == 0 else op['i'] * 7 + 3):
                 fails.append(('corrupt_or_misplaced_value', {'t': t, 'op': op, 'out': o}))
             if 'err' in o:
@@ -152,6 +168,8 @@ def oracle(n, ops, outs, exists_after=None):
 
 
 def model_request(n, ndirs, ops):
+    # a step of an iteration in flight is, for the model, the access `ds[position]`
+    ops = [({'k': 'get', 'w': o['w'], 'i': o['i']} if o['k'] == 'next' else o) for o in ops]
     return {'fam': 'disk', 'n': n, 'ndirs': ndirs, 'ops': ops}
 
 
@@ -179,6 +197,11 @@ def run(rep):
         outs_m = [({'val': -1} if (isinstance(o, dict) and 'val' in o and o['val'] is None) else o) for o in outs]
         if rp.get('outs') != outs_m or rp.get('calls') != counts or m_exists != exists:
             disagree.append((n, nd, ops, outs, counts, exists, rp))
+            mc = rp.get('calls')
+            if rp.get('outs') == outs_m and mc is not None and len(mc) == len(counts) and any(c > m for c, m in zip(counts, mc)):
+                # same answers, but the upstream ran more often than "once per example and directory
+                # generation" (C11_calls_only_on_miss): a stored example was computed again
+                fails.append(('recomputed_stored_example', {'upstream_calls': counts, 'calls_needed': mc}, n, nd, ops, outs))
         for cl, det in oracle(n, ops, outs, ex_after):
             fails.append((cl, det, n, nd, ops, outs))
     # asynchronous kills: the process dies at a random instant during a store; judged by the oracle only
@@ -186,8 +209,12 @@ def run(rep):
     for _ in range(12 if tier == 'quick' else 150):
         n = rng.randint(2, 4)
         ops = [{'k': 'open', 'dir': 0, 'reuse': True, 'clear': False}]
-        for _ in range(rng.randint(1, 4)):
-            ops.append({'k': 'get', 'w': 0, 'i': rng.randrange(n)})
+        if rng.random() < 0.5:
+            for _ in range(rng.randint(1, 4)):
+                ops.append({'k': 'get', 'w': 0, 'i': rng.randrange(n)})
+        else:
+            for pos in range(rng.randint(1, n)):
+                ops.append({'k': 'next', 'w': 0, 'it': 0, 'i': pos})
         ops += [{'k': 'kill'}, {'k': 'open', 'dir': 0, 'reuse': True, 'clear': False}]
         ops += [{'k': 'get', 'w': 1, 'i': i} for i in range(n)]
         ah.append((n, 1, ops))
